@@ -115,13 +115,6 @@ func (cb *CircuitBreaker) Execute(fn func() error) error {
 		return err
 	}
 
-	// Increment request count for half-open state
-	cb.mutex.Lock()
-	if cb.state == StateHalfOpen {
-		cb.requestCount++
-	}
-	cb.mutex.Unlock()
-
 	defer func() {
 		if r := recover(); r != nil {
 			cb.afterRequest(false)
@@ -165,38 +158,34 @@ func (cb *CircuitBreaker) beforeRequest() error {
 		return nil
 	}
 
-	// For Open state, check if we can transition to HalfOpen
-	if state == StateOpen {
-		canRetry := cb.nextAttempt.Before(now)
+	// Open and the timeout has not elapsed: reject without taking the write lock
+	if state == StateOpen && !cb.nextAttempt.Before(now) {
 		cb.mutex.RUnlock()
-
-		if canRetry {
-			cb.mutex.Lock()
-			// Double-check state hasn't changed
-			if cb.state == StateOpen && cb.nextAttempt.Before(now) {
-				cb.setState(StateHalfOpen)
-				cb.requestCount = 0
-				cb.successCount = 0
-			}
-			cb.unlockAndNotify()
-			return nil
-		}
 		return ErrCircuitBreakerOpen
 	}
+	cb.mutex.RUnlock()
 
-	// HalfOpen state: check request limit
-	if state == StateHalfOpen {
-		atLimit := cb.requestCount >= cb.maxRequests
-		cb.mutex.RUnlock()
+	// Open with the timeout elapsed, or half-open: the admission decision and the
+	// trial count are taken in one critical section, so concurrent callers can
+	// never be admitted beyond maxRequests.
+	cb.mutex.Lock()
+	defer cb.unlockAndNotify()
 
-		if atLimit {
+	if cb.state == StateOpen {
+		if !cb.nextAttempt.Before(now) {
+			return ErrCircuitBreakerOpen
+		}
+		cb.setState(StateHalfOpen)
+		cb.requestCount = 0
+		cb.successCount = 0
+	}
+	if cb.state == StateHalfOpen {
+		if cb.requestCount >= cb.maxRequests {
 			return ErrTooManyRequests
 		}
-		return nil
+		cb.requestCount++
 	}
-
-	cb.mutex.RUnlock()
-	return ErrCircuitBreakerOpen
+	return nil
 }
 
 // afterRequest updates the circuit breaker state after a request
